@@ -11,8 +11,20 @@ func init() {
 // fault-free programs (rotation, truncation, reopen histories) and of crash /
 // re-append histories.
 func (p *pg) genC09() (Config, Plan) {
-	if p.r.Intn(5) < 2 {
+	switch p.r.Intn(6) {
+	case 0, 1:
 		c, plan := p.genCrash("C09")
+		return c, plan
+	case 2:
+		// injected I/O errors: what a failed (rolled back) append, seal or
+		// truncation leaves in the file must never end up inside the committed part
+		c, plan := p.genErr("C09")
+		for i := 0; i < len(plan.Ops); i += 4 {
+			if plan.Ops[i].Kind == "get" && plan.Ops[i].Fault == nil {
+				plan.Ops[i] = OpSpec{Kind: "reopen"}
+			}
+		}
+		plan.Ops = append(plan.Ops, OpSpec{Kind: "reopen"}, OpSpec{Kind: "quiesce"})
 		return c, plan
 	}
 	c := p.baseConfig("C09")
